@@ -262,7 +262,7 @@ package core
 //@ func CRespCodec.Decode
 //@   props C08 C12 C17
 //@   flags allocbound
-//@   requires c != nil && EngineGlobal != nil
+//@   requires c != nil && EngineGlobal != nil && swf(ref(conn, c))
 //@   ensures[nonnil@C12] (result1 == nil) == (result0 != nil)
 //@   ensures[taxonomy@C12] (result1 != nil && result1 != codec.ErrInvalidResp) ==> (result1 == errors.ErrIncompletePacket || result1 == codec.EmptyLine || result1 == codec.ShortLine || result1 == codec.ErrLFNotFound)
 //@   ensures[wait@C12] (result1 == errors.ErrIncompletePacket) ==> len(codec.buffer.buf) == 0 || bidx(codec.buffer.buf, '\n') < 0
@@ -397,8 +397,9 @@ package core
 //@   props C02 C03 C07 C11 C13
 //@   modifies codec.buffer.r, codec.buffer.buf, inq(s).head, inq(s).tail, inq(s).count, Frag.next, Frag.prev, Frag.intree
 //@   modifies inq(s).head.Type, inq(s).head.RspBody, capmem(inq(s).head.RspBody)
-//@   modifies conn.buffer, ring.Buffer.r, ring.Buffer.w, ring.Buffer.isEmpty, elastic.RingBuffer.rb
-//@   requires s != nil && inq(s) != nil && fwf(inq(s))
+//@   modifies conn.buffer, ring.Buffer.r, ring.Buffer.w, ring.Buffer.isEmpty, elastic.RingBuffer.rb, bytes.Buffer.glen, bytes.Buffer.gdata
+//@   requires s != nil && inq(s) != nil && fwf(inq(s)) && swf(sc(s))
+//@   assume at call NewBuffer#0 :: (forall g *Frag :: g.RspBody.base != bs.base && g.Req.base != bs.base) && (forall m *Msg :: m.RspBody.base != bs.base)
 //@   ensures[wf] fwf(inq(s))
 //@   ensures[head@C03] result1 == nil ==> result0 != nil && result0 == old(inq(s).head) && inq(s).count == old(inq(s).count) - 1
 //@   ensures[shift@C03] result1 == nil ==> forall i int :: 0 <= i && i < inq(s).count ==> fq(inq(s), i) == old(fq(inq(s), i + 1))
@@ -422,9 +423,9 @@ package core
 //@   props C02 C03 C07 C11 C13 C16
 //@   modifies codec.buffer.r, codec.buffer.buf, c.inFragQueue.head, c.inFragQueue.tail, c.inFragQueue.count, Frag.next, Frag.prev, Frag.intree
 //@   modifies hd(c).Type, hd(c).RspBody, capmem(hd(c).RspBody), hd(c).Error, hd(c).Rsp, hd(c).Ok, Frag.Done
-//@   modifies conn.buffer, ring.Buffer.r, ring.Buffer.w, ring.Buffer.isEmpty, elastic.RingBuffer.rb, c.initStatus
+//@   modifies conn.buffer, ring.Buffer.r, ring.Buffer.w, ring.Buffer.isEmpty, elastic.RingBuffer.rb, c.initStatus, bytes.Buffer.glen, bytes.Buffer.gdata
 //@   modifies hd(c).Peer.FragDoneNumber, hd(c).Peer.DelNum, hd(c).Peer.Done, hd(c).Peer.Error, hd(c).Peer.RspBody, capmem(hd(c).Peer.RspBody)
-//@   requires c.inFragQueue != nil && fwf(c.inFragQueue) && EngineGlobal != nil
+//@   requires c.inFragQueue != nil && fwf(c.inFragQueue) && EngineGlobal != nil && swf(c)
 //@   requires (hd(c) != nil && hd(c).Peer != nil) ==> (forall k int32 :: has(hd(c).Peer.Body, k) ==> hd(c).Peer.Body[k] != nil)
 //@   requires (hd(c) != nil && hd(c).Peer != nil) ==> (hd(c).Peer.RspBody == nil || hd(c).RspBody == nil || hd(c).RspBody.base != hd(c).Peer.RspBody.base)
 //@   assume at call SRespCodec.MGet#0 :: arrhdr(f.RspBody) && value_end(f.RspBody, 0) == len(f.RspBody) && value_ok(f.RspBody, 0) && allbulk(f.RspBody)
